@@ -1,6 +1,7 @@
 (* C06 — Concurrent operations are individually atomic (linearizable), with no deadlock. *)
 From Coq Require Import List NArith Bool.
 From FsDb Require Import VList Core Spec CoreInv Refine SpecProps Conc07 Conc08.
+From FsDb Require LockSkel LockSkelGen LockSkelCheck.
 Import ListNotations.
 Open Scope N_scope.
 
@@ -54,9 +55,37 @@ Theorem C06_gc_keeps_resolvable_versions :
   forall m a, Inv m -> R m a -> R (gc m) a /\ R (drain m) a.
 Proof. intros m a I HR. split; [apply gc_sim | apply drain_sim]; assumption. Qed.
 
+(* ---- tie of the step granularity to the source: the lock/effect skeleton of internal/usecase/core, regenerated
+   from the Go source on every run (harness/lockskel.go -> LockSkelGen.v), satisfies the discipline of LockSkel.v *)
+Theorem C06_lock_skeleton_ok :
+  LockSkel.skeleton_ok LockSkelGen.skeleton = true /\ LockSkel.covers LockSkelGen.skeleton = true.
+Proof. split; [exact LockSkelCheck.fsdb_skeleton_ok | exact LockSkelCheck.fsdb_skeleton_covers]. Qed.
+
+(* every acquisition in a checked path asks for a store ranked above all it holds: the hypothesis [ordered] of
+   C06_no_deadlock is a checked fact about the source, not a reading of it *)
+Theorem C06_acquisitions_ordered :
+  forall r p q l w h0 hend,
+    LockSkel.run r h0 (p ++ LockSkel.Acq l w :: q) = Some hend ->
+    exists h, LockSkel.run r h0 p = Some h /\ forall l' w', In (l', w') h -> (LockSkel.rank l' < LockSkel.rank l)%nat.
+Proof. exact LockSkel.acquisitions_ordered. Qed.
+
+(* what [path_ok] buys: a store that an operation enters at most once and needs at two of its events is held without
+   interruption between them - the events are in ONE critical section (for UpdateTx and the committed store: the conflict
+   test, the commit numbers, the records and the publication; for Store: number, record and both list appends) *)
+Theorem C06_one_critical_section :
+  forall r l p1 e1 p2 e2 p3 hend,
+    LockSkel.run r [] (p1 ++ e1 :: p2 ++ e2 :: p3) = Some hend ->
+    (LockSkel.count_acq l (p1 ++ e1 :: p2 ++ e2 :: p3) <= 1)%nat ->
+    In l (LockSkel.r_need r e1) -> In l (LockSkel.r_need r e2) ->
+    forall q1 w q2, p2 = q1 ++ LockSkel.Rel l w :: q2 -> False.
+Proof. exact LockSkel.one_critical_section. Qed.
+
 Print Assumptions C06_atomic_steps_linearize.
 Print Assumptions C06_no_deadlock.
 Print Assumptions C06_fsdb_lock_order.
 Print Assumptions C06_read_atomic_refuted.
 Print Assumptions C06_read_linearizable_partial.
 Print Assumptions C06_gc_keeps_resolvable_versions.
+Print Assumptions C06_lock_skeleton_ok.
+Print Assumptions C06_acquisitions_ordered.
+Print Assumptions C06_one_critical_section.
